@@ -6,10 +6,10 @@ EXTENDS StreamRun
 Trace == ndJsonDeserialize("trace.ndjson")
 ASSUME TLCSet(1, 0)
 VARIABLES l, S
-vars == <<l, S>>
-Init == l = 1 /\ S = Idle
+vars == <<l, S, gvars>>
+Init == l = 1 /\ S = Idle /\ GenInit          \* the generator's variables are not used here
 Max2(a, b) == IF a > b THEN a ELSE b
-Next == /\ l <= Len(Trace) /\ l' = l + 1
+Next == /\ l <= Len(Trace) /\ l' = l + 1 /\ UNCHANGED gvars
         /\ LET X == Apply(S, Trace[l]) IN
              /\ S' = X
              /\ (X.bad # "" /\ (S.bad = "" \/ Trace[l].ev = "case")) => PrintT(<<"BAD", X.id, l, X.bad>>)
